@@ -996,8 +996,18 @@ func verify(w *twork, p prepared, m modelResult) (*simh.Violation, int) {
 			missing = append(missing, f)
 		}
 	}
+	// a new file counts as a wrongly named target only if it sits next to the targets and is
+	// named after them (the un-suffixed path, or the stem followed by an underscore); other
+	// files a tool may create (a log, a lock) are not this property's business
+	tdir, tfile := filepath.Split(p.target)
+	stem := strings.TrimSuffix(tfile, filepath.Ext(tfile))
+	relDir, _ := filepath.Rel(p.dir, tdir)
 	for f := range have {
-		if !p.expectedFiles[f] {
+		if p.expectedFiles[f] {
+			continue
+		}
+		fd, fb := filepath.Split(f)
+		if filepath.Clean(fd) == filepath.Clean(relDir) && (fb == tfile || strings.HasPrefix(fb, stem+"_") || (strings.HasPrefix(fb, stem) && filepath.Ext(fb) == filepath.Ext(tfile))) {
 			extra = append(extra, f)
 		}
 	}
